@@ -236,5 +236,7 @@ func (puritySuite) Run(raw json.RawMessage) []Step {
 		steps = append(steps, Step{Line: strings.Join(fields, "\t"), Go: baseline[k], Mode: "verdict", Trivial: baseline[k] == "err",
 			Desc: describeCase(rCase{Archs: archs, World: c.Worlds[k.world]}, 0), Tags: []string{"fresh:" + strings.SplitN(baseline[k], " ", 2)[0]}})
 	}
+	// 4. aliasing histories: the published values before / after work on clones, field by field (purity_alias.go)
+	steps = append(steps, aliasSteps(c, baseline, r)...)
 	return steps
 }
